@@ -153,6 +153,13 @@ def gen_cases(ctx):
         n = int(rng.choice([2, 3, 12, 40, nmax]))
         yield {"kind": "relations", "system": name, "n": n, "tex": str(rng.choice(["random", "cluster_wide", "cluster", "cluster_tight", "girdle"])),
                "seed": int(rng.integers(1 << 31))}
+    # aggregates of more than 2**20 grain pairs (the property covers any number of orientations; work that is split into
+    # blocks only shows above such sizes), listed with a tight cluster at the end so that the listing is not exchangeable
+    big = [("triclinic", 1449)] if ctx.tier == "quick" else [("triclinic", 1449), ("triclinic", 1500), ("triclinic", 2000),
+                                                             ("triclinic", 1777), ("orthorhombic", 1449), ("monoclinic", 1450)]
+    for j, (name, n) in enumerate(big):
+        if (j + 1) % nrs == irel:
+            yield {"kind": "relations", "system": name, "n": n, "tex": "random", "sorted_cluster": 32, "seed": 7000 + j + ctx.seed}
     for j in range(ctx.scale(6, 60)):
         if j % nrs == irel:
             rng = ctx.rng(5, j)
@@ -235,6 +242,10 @@ def _relations(ctx, pydrex, case):
     rng = np.random.default_rng([int(case["seed"]), 5])
     n = case["n"]
     _, A = gen.texture(rng, n, case["tex"])
+    if case.get("sorted_cluster"):
+        k = int(case["sorted_cluster"])
+        A[-k:] = gen.texture(rng, k, "cluster_tight")[1]
+        ctx.cls("more_than_2**20_pairs" if n * (n - 1) // 2 > 1 << 20 else "sorted_cluster")
     npairs = n * (n - 1) // 2
     tol = 3.0 / npairs + 1e-9
     nontriv = npairs >= 10
